@@ -6,6 +6,14 @@
 //!  * `ct_rescale`       rescale_to_next{,_inplace,_new}, rescale_to{,_inplace,_new} (CKKS: accepted; BFV/BGV: refused)
 //!  * `plain_mod_switch` mod_switch_to_next_plain{,_inplace,_new}, mod_switch_plain_to{,_inplace,_new} on NTT-form plaintexts
 //!
+//! Production-size sections (one case = (parameter set, object kind, switch / rescale, ciphertext size, CKKS scale per source
+//! level, message family[, source level]); the check builds the context once and loops over every source level, every
+//! target and the three API forms inside; same oracle):
+//!  * `long`  key levels of 2..19 coefficient primes (data levels of 1..18 primes) at N = 4 / 8, ciphertext sizes 2..6,
+//!            primes from the middle of their size range (f64 scale book-keeping is not nearly exact there)
+//!  * `big`   N = 16..1024 (thorough ..8192) with chains of 3..4 primes, plus N >= 1024 with 9..18 primes; structured messages,
+//!            all N coefficients / N/2 slots of every result compared
+//!
 //! Oracle per case: the call returns (watchdog); downward targets are accepted, end on the requested level, are
 //! byte-identical (data + every metadata field) to the composition of single `*_to_next_new` steps (ciphertexts) resp.
 //! to the object created directly at the target level (plaintexts) — which makes the three API forms mutually
@@ -17,6 +25,7 @@
 use crate::engine::*;
 use crate::he::{self, ct_meta, Kit, ParamSpec, Scheme};
 use crate::refmodel::bigu::{inv_mod_u64, mul_mod, BigU};
+use crate::refmodel::ntt::fast_ntt;
 use crate::refmodel::poly::{naive_ntt, pmul};
 use heathcliff::{CKKSEncoder, Ciphertext, ParmsID, Plaintext, ValCheck, PARMS_ID_ZERO};
 use num_complex::Complex;
@@ -30,7 +39,9 @@ pub fn describe(rep: &Report) {
         "case = (parameter set with explicit primes, object kind, operation, API form, ciphertext size, preparation order, source level, \
          target, CKKS scale class); every ordered (source, target) pair of every chain incl. equal / upward / key-level / zero / foreign ids; \
          each case loops over 3 message tuples. non-trivial = the case's verdict exercised the property: a downward move whose \
-         message was compared under a valid a-priori noise bound (CKKS: bound <= 2^-4), an identity move, or a demanded refusal.",
+         message was compared under a valid a-priori noise bound (CKKS: bound <= 2^-4), an identity move, or a demanded refusal. \
+         Sections `long` / `big`: case = (parameter set, object kind, switch or rescale, ciphertext size 2..6, CKKS scale per source level, message family, \
+         optionally one source level); the check loops over every source level x (next, every level, key / zero / foreign id) x 3 API forms.",
     );
     rep.assume("a-priori noise calculus (worst case, expansion factor N, every term doubled): decryption is only compared when it says the result must decrypt correctly; otherwise only termination, level, metadata, validity and byte-identity of the forms are judged");
     rep.assume("source ciphertexts of size 3 and 4 are produced by real multiplications without relinearisation, either at the first level followed by single-level switches, or after switching the fresh operands down (both orders are enumerated)");
@@ -38,6 +49,8 @@ pub fn describe(rep: &Report) {
     rep.assume("CKKS mod_switch with a scale that no longer fits a level on the way must be refused: computing it cannot preserve the message");
     rep.assume("decryption, encoding/decoding and the forward NTT root tables of the library are used as given (C01, C12, C09)");
     rep.assume("parameter values: N in {4,8} (16 thorough), the listed prime-size patterns, t in {17, 64, t > q_0}; not all primes / plain moduli");
+    rep.assume("sections long / big: ciphertexts of size 2..6 are products of size-1 fresh encryptions (BFV / BGV: multiplied on the first level and switched down level by level; CKKS: encoded, encrypted and multiplied on the source level); the parameter sets are valid by construction (distinct NTT-friendly primes of 36..59 bits, t coprime and smaller), so a context / key generation that fails for them is reported as a violation (nothing could be switched) instead of being skipped");
+    rep.assume("sections long / big: messages are structured families (generic dense fill x sparse factors, boundary monomials, constant / alternating), not all plaintexts; every coefficient / slot of every result is compared");
 }
 
 // ---------------------------------------------------------------------------------------------
@@ -1063,6 +1076,10 @@ fn run_pt(c: &Case, seed: u64, sec: &'static str) -> CaseOut {
 
 const ENGINE_DEADLINE: Duration = Duration::from_secs(20);
 const REPLAY_DEADLINE: Duration = Duration::from_secs(30);
+/// the production-size cases loop over every (source, target, form) of a chain inside one case (up to ~1.2 k calls, or a few
+/// hundred calls at N = 8192): tens of milliseconds to about a second when the machine is idle; the deadline allows for a
+/// machine that is oversubscribed 100-fold
+const WIDE_DEADLINE: Duration = Duration::from_secs(240);
 
 fn run_case(c: &Case, seed: u64, sec: &'static str) -> CaseOut {
     let o = match c.obj {
@@ -1278,6 +1295,866 @@ fn pt_cases(thorough: bool) -> Vec<Case> {
     out
 }
 
+// ---------------------------------------------------------------------------------------------
+// production-size sections: `long` (2..18 coefficient primes at N = 4 / 8) and `big` (N = 16..8192)
+// ---------------------------------------------------------------------------------------------
+//
+// One case = (parameter set, object kind, switch / rescale, ciphertext size, CKKS scale per source level, message family).
+// The check builds the context ONCE and loops over EVERY source level, every target (next, every level, key / zero /
+// foreign id) and the three API forms inside, with the same oracle as the sections above: byte identity with the
+// composition of single-level `_new` steps (plaintexts: with the object created directly on the target level),
+// independently predicted level / size / scale / correction factor, validity, and the decrypted message under the
+// a-priori noise calculus. The message families are structured (one dense factor, sparse / monomial other factors) so that
+// the reference product stays O(N) per factor at N = 8192.
+
+#[derive(Serialize, Deserialize, Clone, Debug)]
+pub struct WideCase {
+    pub spec: ParamSpec,
+    pub obj: Obj,
+    /// false: mod_switch_*; true: rescale_*
+    pub rescale: bool,
+    /// ciphertext size (2..6, obtained by size-1 real multiplications without relinearisation); 0 for plaintext cases
+    pub size: usize,
+    /// CKKS: log2 of the scale of the fresh encodings of the source built ON data level s (index s); empty otherwise
+    pub scale_log2: Vec<u32>,
+    /// message family (0 generic fill, 1 boundary monomials, 2 constant / alternating)
+    pub msg: usize,
+    /// None: the case loops over every source level; Some(s): only source level s (large parameter sets are split so that a
+    /// single case stays far below the deadline)
+    #[serde(default)]
+    pub src: Option<usize>,
+}
+
+fn wide_family(c: &WideCase) -> &'static str {
+    match (c.obj, c.rescale) {
+        (Obj::Ct, false) => "mod_switch_to*",
+        (Obj::Ct, true) => "rescale_to*",
+        (Obj::Pt, _) => "mod_switch_plain_to*",
+    }
+}
+
+fn wide_hang_key(sec: &str, c: &WideCase) -> String {
+    format!("{}:{}:{:?}:nontermination", sec, wide_family(c), c.spec.scheme)
+}
+
+/// a * b mod (X^n + 1, t), skipping zero coefficients (one factor of every product is sparse)
+fn negamul_sparse(a: &[u64], b: &[u64], t: u64) -> Vec<u64> {
+    let n = a.len();
+    let nb: Vec<(usize, u64)> = b.iter().enumerate().filter(|(_, &y)| y % t != 0).map(|(j, &y)| (j, y % t)).collect();
+    let mut out = vec![0u64; n];
+    for (i, &x) in a.iter().enumerate() {
+        let x = x % t;
+        if x == 0 {
+            continue;
+        }
+        for &(j, y) in &nb {
+            let p = mul_mod(x, y, t);
+            let k = i + j;
+            if k < n {
+                out[k] = (out[k] + p) % t;
+            } else {
+                out[k - n] = (out[k - n] + t - p) % t;
+            }
+        }
+    }
+    out
+}
+
+/// `count` plaintext polynomials (coefficients < t); factor 0 may be dense, every other factor has at most 3 terms
+fn wide_exact(fam: usize, count: usize, n: usize, t: u64, seed: u64) -> Vec<Vec<u64>> {
+    let nz = |x: u64| if x % t == 0 { 1 } else { x % t };
+    (0..count)
+        .map(|k| {
+            let mut m = vec![0u64; n];
+            match (fam, k) {
+                (0, 0) => {
+                    for (i, v) in m.iter_mut().enumerate() {
+                        *v = h64(&(seed, "c05w", i)) % t;
+                    }
+                }
+                (0, _) => {
+                    m[0] = nz(h64(&(seed, "c05w0", k)));
+                    m[(k * (n / 4).max(1) + 1) % n] = nz(h64(&(seed, "c05w1", k)));
+                    m[n - 1] = nz(h64(&(seed, "c05w2", k)));
+                }
+                (1, 0) => m[n - 1] = t - 1,
+                (1, 1) => m[1 % n] = 1,
+                (1, 2) => {
+                    m[0] = t - 1;
+                    m[n / 2] = t / 2;
+                }
+                (1, 3) => {
+                    m[n - 1] = 1;
+                    m[0] = 1;
+                }
+                (1, _) => m[n / 2 + 1] = 2 % t,
+                (_, 0) => m = (0..n).map(|i| if i % 2 == 0 { t - 1 } else { t / 2 }).collect(),
+                (_, 1) => {
+                    m[0] = (t + 1) / 2 % t;
+                    m[n - 1] = t / 2;
+                }
+                (_, _) => m[(k * 3) % n] = t - 1,
+            }
+            m
+        })
+        .collect()
+}
+
+/// `count` slot vectors with |z| <= ~2.2
+fn wide_slots(fam: usize, count: usize, slots: usize, seed: u64) -> Vec<Vec<C64>> {
+    (0..count)
+        .map(|k| {
+            (0..slots)
+                .map(|i| match fam {
+                    0 => {
+                        let f = |tag: u8| (h64(&(seed, "c05wz", k, i, tag)) % 3001) as f64 / 1000.0 - 1.5;
+                        C64::new(f(0), f(1))
+                    }
+                    1 => match k {
+                        0 => {
+                            if i == 0 {
+                                C64::new(1.0, 0.0)
+                            } else if i == slots - 1 {
+                                C64::new(-1.5, 0.0)
+                            } else {
+                                C64::new(0.0, 0.0)
+                            }
+                        }
+                        _ => {
+                            if i == 0 {
+                                C64::new(0.0, 1.0)
+                            } else {
+                                C64::new(1.0, 0.0)
+                            }
+                        }
+                    },
+                    _ => C64::new(((i + k) % 7) as f64 / 4.0 - 0.75, ((3 * i + k) % 5) as f64 / 4.0 - 0.5),
+                })
+                .collect()
+        })
+        .collect()
+}
+
+struct WideRun<'a> {
+    c: &'a WideCase,
+    sec: &'static str,
+    kit: &'a Kit,
+    lv: &'a [Lv],
+    enc: Option<&'a CKKSEncoder>,
+    key_id: ParmsID,
+    seed: u64,
+}
+
+fn wide_proto(c: &WideCase) -> Case {
+    Case { spec: c.spec.clone(), obj: c.obj, op: Op::MsNext, form: Form::New, size: c.size, prep: Prep::MulThenDown, src: 0, tgt: Tgt::Next, scale_log2: 0 }
+}
+
+/// sources of a ciphertext case, one per data level. BFV / BGV: the product of size-1 fresh encryptions on the first level,
+/// switched down level by level (so the source on level s carries the correction factor of s switches). CKKS: encoded and
+/// encrypted ON level s with the case's scale for that level, multiplied there.
+fn wide_sources(w: &WideRun, cx: &Ctxt, model: &Model, srcs: &[usize]) -> Result<Vec<Option<Source>>, CaseOut> {
+    let c = w.c;
+    let (kit, lv) = (w.kit, w.lv);
+    let scheme = c.spec.scheme;
+    let n = c.spec.n;
+    let k = c.size;
+    let setup_panic = |step: &str, p: String| CaseOut::fail(cx.setup_key(step, &format!("panic:{}", panic_class(&p))), format!("{step} succeeds on valid operands"), p);
+    let mul_all = |cts: &[Ciphertext], nzs: &[Nz], level: usize| -> Result<(Ciphertext, Nz), CaseOut> {
+        let mut acc = cts[0].clone();
+        let mut nz = nzs[0];
+        for (ct, z) in cts.iter().zip(nzs).skip(1) {
+            acc = guard(|| kit.eval.multiply_new(&acc, ct)).map_err(|p| setup_panic("multiply_new", p))?;
+            nz = model.mul(&nz, z, &lv[level]);
+        }
+        Ok((acc, nz))
+    };
+    let mut out: Vec<Option<Source>> = (0..lv.len()).map(|_| None).collect();
+    let last_needed = srcs.iter().copied().max().unwrap_or(0);
+    if scheme == Scheme::CKKS {
+        let ms = wide_slots(c.msg, k - 1, n / 2, w.seed);
+        let mut prod: Vec<C64> = vec![C64::new(1.0, 0.0); n / 2];
+        for m in &ms {
+            for (a, b) in prod.iter_mut().zip(m) {
+                *a *= b;
+            }
+        }
+        for &s in srcs {
+            let scale = (2.0f64).powi(c.scale_log2[s] as i32);
+            let mut cts = vec![];
+            let mut nzs = vec![];
+            for m in &ms {
+                let pt = guard(|| w.enc.unwrap().encode_c64_array_new(m, Some(lv[s].id), scale)).map_err(|p| setup_panic("encode", p))?;
+                cts.push(guard(|| kit.enc.encrypt_new(&pt)).map_err(|p| setup_panic("encrypt", p))?);
+                nzs.push(model.fresh(&lv[s], scale, zmax(m)));
+            }
+            let junk = cts[0].clone();
+            let (ct, nz) = mul_all(&cts, &nzs, s)?;
+            out[s] = Some(Source { ct, nz, junk, exact: vec![], slots: prod.clone() });
+        }
+    } else {
+        let t = c.spec.t;
+        let ms = wide_exact(c.msg, k - 1, n, t, w.seed);
+        let mut prod = ms[0].clone();
+        for m in ms.iter().skip(1) {
+            prod = negamul_sparse(&prod, m, t);
+        }
+        let mut cts = vec![];
+        let mut nzs = vec![];
+        for m in &ms {
+            let pt = kit.plain(m);
+            cts.push(guard(|| kit.enc.encrypt_new(&pt)).map_err(|p| setup_panic("encrypt", p))?);
+            nzs.push(model.fresh(&lv[0], 1.0, 0.0));
+        }
+        let junk = cts[0].clone();
+        let (mut ct, mut nz) = mul_all(&cts, &nzs, 0)?;
+        for s in 0..=last_needed {
+            if s > 0 {
+                ct = guard(|| kit.eval.mod_switch_to_next_new(&ct)).map_err(|p| setup_panic("mod_switch_to_next_new", p))?;
+                nz = model.switch(&nz, &lv[s - 1], &lv[s]);
+            }
+            if srcs.contains(&s) {
+                out[s] = Some(Source { ct: ct.clone(), nz, junk: junk.clone(), exact: prod.clone(), slots: vec![] });
+            }
+        }
+    }
+    for (s, src) in out.iter().enumerate() {
+        let Some(src) = src else { continue };
+        if *src.ct.parms_id() != lv[s].id || src.ct.size() != k {
+            return Err(CaseOut::fail(
+                cx.setup_key("source", "wrong-level-or-size"),
+                format!("source of size {k} on level {s}"),
+                format!("{} level-match={}", ct_meta(&src.ct), *src.ct.parms_id() == lv[s].id),
+            ));
+        }
+    }
+    Ok(out)
+}
+
+fn wide_ct(w: &WideRun) -> CaseOut {
+    let c = w.c;
+    let (kit, lv, sec) = (w.kit, w.lv, w.sec);
+    let scheme = c.spec.scheme;
+    let nl = lv.len();
+    let model = Model { scheme, n: c.spec.n, t: c.spec.t.max(1) };
+    let mut pc = wide_proto(c);
+    let srcs: Vec<usize> = match c.src {
+        None => (0..nl).collect(),
+        Some(s) if s < nl => vec![s],
+        Some(_) => return CaseOut::skip("source level outside the chain"),
+    };
+    let sources = {
+        let cx = Ctxt { c: &pc, sec, api: String::new() };
+        match wide_sources(w, &cx, &model, &srcs) {
+            Ok(s) => s,
+            Err(out) => return out,
+        }
+    };
+    let (op_next, op_to) = if c.rescale { (Op::RsNext, Op::RsTo) } else { (Op::MsNext, Op::MsTo) };
+    let rescale_ok = c.rescale && scheme == Scheme::CKKS;
+    let mut tgts = vec![Tgt::Next];
+    tgts.extend(targets(nl));
+
+    let mut steps = 0u64;
+    let mut meaningful = 0u64;
+    let mut classes: std::collections::BTreeSet<String> = Default::default();
+    for &s in &srcs {
+        let src = sources[s].as_ref().expect("harness: source built for every requested level");
+        pc.src = s;
+        {
+            let cx = Ctxt { c: &pc, sec, api: String::new() };
+            if let Err(out) = judge_message(&cx, kit, w.enc, &src.ct, &src.nz, src, "source") {
+                return out;
+            }
+            if scheme == Scheme::BGV && src.ct.correction_factor() != src.nz.cf {
+                return CaseOut::fail(
+                    cx.setup_key("source", "correction-factor"),
+                    format!("{} after {s} single-level switches", src.nz.cf),
+                    format!("{}", src.ct.correction_factor()),
+                );
+            }
+            if scheme == Scheme::CKKS && src.ct.scale().to_bits() != src.nz.scale.to_bits() {
+                return CaseOut::fail(cx.setup_key("source", "scale"), format!("{:e}", src.nz.scale), format!("{:e}", src.ct.scale()));
+            }
+        }
+        // reference: composition of single-level `_new` steps from the source + model state; stops at the first level
+        // the CKKS scale does not fit (plain switching there cannot keep the message: refusal demanded from there on)
+        let mut refs: Vec<Option<(Ciphertext, Nz)>> = (0..nl).map(|_| None).collect();
+        let mut judged: Vec<bool> = vec![false; nl];
+        let mut edge_from: Option<usize> = None;
+        if !c.rescale || rescale_ok {
+            let mut cur = src.ct.clone();
+            let mut nz = src.nz;
+            for to in s + 1..nl {
+                if !c.rescale && scheme == Scheme::CKKS && !scale_fits(nz.scale, &lv[to]) {
+                    edge_from = Some(to);
+                    break;
+                }
+                nz = if c.rescale { model.rescale(&nz, &lv[to - 1], &lv[to]) } else { model.switch(&nz, &lv[to - 1], &lv[to]) };
+                let step = guard(|| if c.rescale { kit.eval.rescale_to_next_new(&cur) } else { kit.eval.mod_switch_to_next_new(&cur) });
+                steps += 1;
+                cur = match step {
+                    Ok(x) => x,
+                    Err(p) => {
+                        return CaseOut::fail(
+                            format!("{sec}:{}:{:?}:down1:panic:{}", api_name(Obj::Ct, op_next, Form::New), scheme, panic_class(&p)),
+                            format!("accepted: single-level step {} -> {to} of {nl} (chain started on level {s}), size {}", to - 1, c.size),
+                            p,
+                        )
+                    }
+                };
+                refs[to] = Some((cur.clone(), nz));
+            }
+        }
+        for &tgt in &tgts {
+            for form in [Form::Inplace, Form::Dest, Form::New] {
+                pc.op = if tgt == Tgt::Next { op_next } else { op_to };
+                pc.form = form;
+                pc.tgt = tgt;
+                let cx = Ctxt { c: &pc, sec, api: api_name(Obj::Ct, pc.op, form) };
+                let exp = expect(&pc, lv, &w.key_id);
+                let tid = target_id(&pc, lv, &w.key_id);
+                let rel = rel_class(&exp, s);
+                let res = call_ct(kit, pc.op, form, &src.ct, &tid, &src.junk).res;
+                steps += 1;
+                let at = || format!("source level {s} of {nl} ({} primes), target {tgt:?}, size {}", lv[s].q.len(), c.size);
+                match &exp {
+                    Expect::Refuse(why) => match res {
+                        Err(_) => {
+                            classes.insert(format!("{rel}:refused"));
+                            meaningful += 1;
+                        }
+                        Ok(r) => return CaseOut::fail(cx.key(&rel, "accepted"), format!("refusal ({why}); {}", at()), format!("returned {}", ct_meta(&r))),
+                    },
+                    Expect::Same => match res {
+                        Err(_) => {
+                            classes.insert("same:refused-equal".into());
+                        }
+                        Ok(r) => {
+                            if let Some(d) = ct_diff(&r, &src.ct) {
+                                return CaseOut::fail(cx.key(&rel, &format!("not-identity:{d}")), format!("the operand unchanged ({}); {}", ct_meta(&src.ct), at()), ct_meta(&r));
+                            }
+                            classes.insert("same:identity".into());
+                            meaningful += 1;
+                        }
+                    },
+                    Expect::Down(to) => {
+                        let to = *to;
+                        if edge_from.is_some_and(|e| to >= e) {
+                            match res {
+                                Err(_) => {
+                                    classes.insert(format!("{rel}:scale-edge:refused"));
+                                    meaningful += 1;
+                                }
+                                Ok(_) => {
+                                    return CaseOut::fail(
+                                        cx.key(&rel, "scale-does-not-fit-the-target-level:accepted"),
+                                        format!("refused: the scale {:e} does not fit level {}; {}", src.ct.scale(), edge_from.unwrap(), at()),
+                                        "the switch was computed (the message wraps modulo the smaller modulus)",
+                                    )
+                                }
+                            }
+                            continue;
+                        }
+                        let r = match res {
+                            Ok(r) => r,
+                            Err(p) => return CaseOut::fail(cx.key(&rel, &format!("panic:{}", panic_class(&p))), format!("accepted: {}", at()), p),
+                        };
+                        if *r.parms_id() != lv[to].id {
+                            let pos = lv.iter().position(|l| l.id == *r.parms_id());
+                            return CaseOut::fail(cx.key(&rel, "wrong-level"), format!("result on level {to}; {}", at()), format!("result on level {pos:?}; {}", ct_meta(&r)));
+                        }
+                        let (reference, nz) = refs[to].as_ref().expect("harness: reference chain covers every accepted target");
+                        if let Some(d) = ct_diff(&r, reference) {
+                            return CaseOut::fail(
+                                cx.key(&rel, &format!("forms-differ:{d}")),
+                                format!("byte-identical to the composition of single-level _new steps: {}; {}", ct_meta(reference), at()),
+                                ct_meta(&r),
+                            );
+                        }
+                        let exp_ntt = scheme != Scheme::BFV;
+                        let exp_scale = if scheme == Scheme::CKKS { nz.scale } else { 1.0 };
+                        let exp_cf = if scheme == Scheme::BGV { nz.cf } else { 1 };
+                        if r.size() != c.size || r.is_ntt_form() != exp_ntt || r.coeff_modulus_size() != lv[to].q.len() || r.poly_modulus_degree() != c.spec.n {
+                            return CaseOut::fail(cx.key(&rel, "metadata"), format!("size={} cms={} ntt={}; {}", c.size, lv[to].q.len(), exp_ntt, at()), ct_meta(&r));
+                        }
+                        if r.scale().to_bits() != exp_scale.to_bits() {
+                            return CaseOut::fail(
+                                cx.key(&rel, "scale"),
+                                format!("{:e} (source scale {:e}{}); {}", exp_scale, src.nz.scale, if c.rescale { " divided by each dropped prime in turn" } else { " unchanged" }, at()),
+                                format!("{:e}", r.scale()),
+                            );
+                        }
+                        if r.correction_factor() != exp_cf {
+                            return CaseOut::fail(
+                                cx.key(&rel, "correction-factor"),
+                                format!("{exp_cf} = {} * prod q_last^-1 mod {}; {}", src.nz.cf, c.spec.t, at()),
+                                format!("{}", r.correction_factor()),
+                            );
+                        }
+                        if judged[to] {
+                            continue; // byte-identical to a result that was already validated and decrypted
+                        }
+                        judged[to] = true;
+                        match guard(|| r.is_valid_for(&kit.ctx)) {
+                            Ok(true) => {}
+                            Ok(false) => return CaseOut::fail(cx.key(&rel, "invalid-result"), format!("is_valid_for(context); {}", at()), ct_meta(&r)),
+                            Err(p) => return CaseOut::fail(cx.key(&rel, &format!("valcheck-panic:{}", panic_class(&p))), "is_valid_for(context)", p),
+                        }
+                        match judge_message(&cx, kit, w.enc, &r, nz, src, &rel) {
+                            Err(out) => return out,
+                            Ok(Some(b)) => {
+                                steps += 1;
+                                if b <= 0.0625 {
+                                    meaningful += 1;
+                                }
+                                classes.insert(format!("{rel}:message-judged"));
+                            }
+                            Ok(None) => {
+                                classes.insert(format!("{rel}:message-unjudged"));
+                            }
+                        }
+                    }
+                }
+            }
+        }
+    }
+    let cl: Vec<&String> = classes.iter().collect();
+    CaseOut::pass(meaningful > 0, h64(&(sec, "ct", c.rescale, scheme, c.size, nl, &cl)), steps)
+}
+
+fn wide_make_plain(w: &WideRun, level: usize, scale_log2: u32, fam: usize) -> Result<(Plaintext, Vec<u64>, Vec<C64>), String> {
+    let c = w.c;
+    if c.spec.scheme == Scheme::CKKS {
+        let m = wide_slots(fam, 1, c.spec.n / 2, w.seed).remove(0);
+        let scale = (2.0f64).powi(scale_log2 as i32);
+        let p = guard(|| w.enc.unwrap().encode_c64_array_new(&m, Some(w.lv[level].id), scale))?;
+        Ok((p, vec![], m))
+    } else {
+        let m = wide_exact(fam, 3, c.spec.n, c.spec.t, w.seed).remove(if fam == 1 { 2 } else { 0 });
+        let pt = w.kit.plain(&m);
+        let p = guard(|| w.kit.eval.transform_plain_to_ntt_new(&pt, &w.lv[level].id))?;
+        Ok((p, m, vec![]))
+    }
+}
+
+fn wide_pt(w: &WideRun) -> CaseOut {
+    let c = w.c;
+    let (kit, lv, sec) = (w.kit, w.lv, w.sec);
+    let scheme = c.spec.scheme;
+    let n = c.spec.n;
+    let nl = lv.len();
+    let mut pc = wide_proto(c);
+    let mut tgts = vec![Tgt::Next];
+    tgts.extend(targets(nl));
+    let mut steps = 0u64;
+    let mut meaningful = 0u64;
+    let mut classes: std::collections::BTreeSet<String> = Default::default();
+    let srcs: Vec<usize> = match c.src {
+        None => (0..nl).collect(),
+        Some(s) if s < nl => vec![s],
+        Some(_) => return CaseOut::skip("source level outside the chain"),
+    };
+    let mk_fail = |cx: &Ctxt, what: &str, p: String| CaseOut::fail(cx.setup_key("make-plain", &format!("panic:{}", panic_class(&p))), format!("an NTT-form plaintext on {what} can be created"), p);
+    for &s in &srcs {
+        pc.src = s;
+        let sl = if scheme == Scheme::CKKS { c.scale_log2[s] } else { 0 };
+        let cx0 = Ctxt { c: &pc, sec, api: String::new() };
+        let (src, exact, slots) = match wide_make_plain(w, s, sl, c.msg) {
+            Ok(x) => x,
+            Err(p) => return mk_fail(&cx0, "the source level", p),
+        };
+        let junk = match wide_make_plain(w, 0, if scheme == Scheme::CKKS { c.scale_log2[0] } else { 0 }, (c.msg + 1) % 3) {
+            Ok(x) => x.0,
+            Err(p) => return mk_fail(&cx0, "the first level", p),
+        };
+        let edge_from: Option<usize> = if scheme == Scheme::CKKS { (s + 1..nl).find(|&l| !scale_fits(src.scale(), &lv[l])) } else { None };
+        let mut judged: Vec<bool> = vec![false; nl];
+        let mut direct: Vec<Option<Plaintext>> = (0..nl).map(|_| None).collect();
+        for &tgt in &tgts {
+            for form in [Form::Inplace, Form::Dest, Form::New] {
+                pc.op = if tgt == Tgt::Next { Op::MsNext } else { Op::MsTo };
+                pc.form = form;
+                pc.tgt = tgt;
+                let cx = Ctxt { c: &pc, sec, api: api_name(Obj::Pt, pc.op, form) };
+                let exp = expect(&pc, lv, &w.key_id);
+                let tid = target_id(&pc, lv, &w.key_id);
+                let rel = rel_class(&exp, s);
+                let res = call_pt(kit, pc.op, form, &src, &tid, &junk).res;
+                steps += 1;
+                let at = || format!("source level {s} of {nl} ({} primes), target {tgt:?}", lv[s].q.len());
+                match &exp {
+                    Expect::Refuse(why) => match res {
+                        Err(_) => {
+                            classes.insert(format!("{rel}:refused"));
+                            meaningful += 1;
+                        }
+                        Ok(r) => return CaseOut::fail(cx.key(&rel, "accepted"), format!("refusal ({why}); {}", at()), format!("returned {}", pt_meta(&r))),
+                    },
+                    Expect::Same => match res {
+                        Err(_) => {
+                            classes.insert("same:refused-equal".into());
+                        }
+                        Ok(r) => {
+                            if let Some(d) = pt_diff(&r, &src) {
+                                return CaseOut::fail(cx.key(&rel, &format!("not-identity:{d}")), format!("the operand unchanged ({}); {}", pt_meta(&src), at()), pt_meta(&r));
+                            }
+                            classes.insert("same:identity".into());
+                            meaningful += 1;
+                        }
+                    },
+                    Expect::Down(to) => {
+                        let to = *to;
+                        if edge_from.is_some_and(|e| to >= e) {
+                            match res {
+                                Err(_) => {
+                                    classes.insert(format!("{rel}:scale-edge:refused"));
+                                    meaningful += 1;
+                                }
+                                Ok(_) => {
+                                    return CaseOut::fail(
+                                        cx.key(&rel, "scale-does-not-fit-the-target-level:accepted"),
+                                        format!("refused: the scale {:e} does not fit level {}; {}", src.scale(), edge_from.unwrap(), at()),
+                                        "the switch was computed (the message wraps modulo the smaller modulus)",
+                                    )
+                                }
+                            }
+                            continue;
+                        }
+                        let r = match res {
+                            Ok(r) => r,
+                            Err(p) => return CaseOut::fail(cx.key(&rel, &format!("panic:{}", panic_class(&p))), format!("accepted: {}", at()), p),
+                        };
+                        if *r.parms_id() != lv[to].id {
+                            let pos = lv.iter().position(|l| l.id == *r.parms_id());
+                            return CaseOut::fail(cx.key(&rel, "wrong-level"), format!("result on level {to}; {}", at()), format!("result on level {pos:?}; {}", pt_meta(&r)));
+                        }
+                        if direct[to].is_none() {
+                            direct[to] = Some(match wide_make_plain(w, to, sl, c.msg) {
+                                Ok(x) => x.0,
+                                Err(p) => return mk_fail(&cx, "the target level", p),
+                            });
+                            steps += 1;
+                        }
+                        let reference = direct[to].as_ref().unwrap();
+                        if let Some(d) = pt_diff(&r, reference) {
+                            return CaseOut::fail(
+                                cx.key(&rel, &format!("differs-from-direct:{d}")),
+                                format!("byte-identical to the plaintext created directly on level {to}: {}; {}", pt_meta(reference), at()),
+                                pt_meta(&r),
+                            );
+                        }
+                        if judged[to] {
+                            continue;
+                        }
+                        judged[to] = true;
+                        match guard(|| r.is_valid_for(&kit.ctx)) {
+                            Ok(true) => {}
+                            Ok(false) => return CaseOut::fail(cx.key(&rel, "invalid-result"), format!("is_valid_for(context); {}", at()), pt_meta(&r)),
+                            Err(p) => return CaseOut::fail(cx.key(&rel, &format!("valcheck-panic:{}", panic_class(&p))), "is_valid_for(context)", p),
+                        }
+                        // the message itself, independently of the library's transforms
+                        if scheme == Scheme::CKKS {
+                            match guard(|| w.enc.unwrap().decode_new(&r)) {
+                                Err(p) => return CaseOut::fail(cx.key(&rel, &format!("decode-panic:{}", panic_class(&p))), "result decodes", p),
+                                Ok(d) => {
+                                    let bound = n as f64 * 1.0 / r.scale() + (2.0f64).powi(-30) * (1.0 + zmax(&slots));
+                                    let (mut err, mut worst) = (0.0f64, 0usize);
+                                    for (i, (a, b)) in d.iter().zip(&slots).enumerate() {
+                                        let e = (a - b).norm();
+                                        if !(e <= err) {
+                                            err = e;
+                                            worst = i;
+                                        }
+                                    }
+                                    if !(err <= bound) {
+                                        return CaseOut::fail(
+                                            cx.key(&rel, "wrong-message"),
+                                            format!("slot {worst} = {:?} within {bound:.3e}; {}", slots.get(worst), at()),
+                                            format!("{:?} (error {err:.3e})", d.get(worst)),
+                                        );
+                                    }
+                                }
+                            }
+                        } else {
+                            let t = c.spec.t;
+                            let ctxd = kit.ctx.get_context_data(&lv[to].id).unwrap();
+                            for (i, &q) in lv[to].q.iter().enumerate() {
+                                let lifted: Vec<u64> = exact.iter().map(|&m| if m >= (t + 1) / 2 { ((m % q) + q - (t % q)) % q } else { m % q }).collect();
+                                let psi = ctxd.small_ntt_tables()[i].root();
+                                let want = fast_ntt(&lifted, psi, q);
+                                let got = &r.data()[i * n..(i + 1) * n];
+                                if let Some(j) = (0..n).find(|&j| got[j] != want[j]) {
+                                    return CaseOut::fail(
+                                        cx.key(&rel, "wrong-message"),
+                                        format!("component {i} (q={q}) = NTT of the centred lift of the message; first difference at index {j}: {}; {}", want[j], at()),
+                                        format!("{}", got[j]),
+                                    );
+                                }
+                            }
+                        }
+                        steps += 1;
+                        meaningful += 1;
+                        classes.insert(format!("{rel}:message-judged"));
+                    }
+                }
+            }
+        }
+    }
+    let cl: Vec<&String> = classes.iter().collect();
+    CaseOut::pass(meaningful > 0, h64(&(sec, "pt", scheme, nl, &cl)), steps)
+}
+
+fn wide_check(c: &WideCase, seed: u64, sec: &'static str) -> CaseOut {
+    he::env_real(seed, h64(&serde_json::to_string(c).unwrap_or_default()));
+    let pc = wide_proto(c);
+    let cx = Ctxt { c: &pc, sec, api: String::new() };
+    let scheme = c.spec.scheme;
+    let model_chain = model_levels(&c.spec);
+    // the enumerated parameter sets are valid by construction (distinct NTT-friendly primes of 36..59 bits, t coprime and
+    // smaller than every prime, no security level requested; the same shapes are accepted at N <= 16 with <= 7 primes): only
+    // a case edited by hand can be outside the domain
+    let well_formed = c.spec.n.is_power_of_two()
+        && (2..=32768).contains(&c.spec.n)
+        && !c.spec.q.is_empty()
+        && c.spec.q.len() <= 60
+        && c.spec.q.iter().enumerate().all(|(i, &p)| p >> 61 == 0 && p > 4 && crate::refmodel::bigu::is_prime_u64(p) && p % (2 * c.spec.n as u64) == 1 && !c.spec.q[..i].contains(&p))
+        && (scheme == Scheme::CKKS || (c.spec.t >= 2 && c.spec.q.iter().all(|&p| p > c.spec.t && gcd(p, c.spec.t) == 1)));
+    if !well_formed {
+        return CaseOut::skip("parameter set outside the enumerated domain");
+    }
+    if scheme == Scheme::CKKS && c.scale_log2.len() != model_chain.len() {
+        return CaseOut::skip("scale list does not match the chain of the parameter set");
+    }
+    let kit = match guard(|| Kit::new(&c.spec)) {
+        Ok(Ok(k)) => k,
+        Ok(Err(e)) => {
+            return CaseOut::fail(
+                cx.setup_key("context", "rejected"),
+                format!("a context (and keys) for N={} and {} distinct NTT-friendly primes: there is nothing to switch otherwise", c.spec.n, c.spec.q.len()),
+                e,
+            )
+        }
+        Err(p) => {
+            return CaseOut::fail(
+                cx.setup_key("context", &format!("panic:{}", panic_class(&p))),
+                format!("a context (and keys) for N={} and {} distinct NTT-friendly primes: there is nothing to switch otherwise", c.spec.n, c.spec.q.len()),
+                p,
+            )
+        }
+    };
+    let lv = match chain_levels(&kit) {
+        Ok(l) => l,
+        Err(e) => return CaseOut::fail(cx.setup_key("chain", "malformed"), "each level drops exactly the last prime of the previous one", e),
+    };
+    if lv.len() != model_chain.len() {
+        return CaseOut::fail(
+            cx.setup_key("chain", "wrong-length"),
+            format!("{} data levels (one per prime of the first data level)", model_chain.len()),
+            format!("{} data levels", lv.len()),
+        );
+    }
+    if c.obj == Obj::Ct && !(2..=8).contains(&c.size) {
+        return CaseOut::skip("ciphertext size outside 2..8");
+    }
+    let enc = if scheme == Scheme::CKKS { Some(CKKSEncoder::new(kit.ctx.clone())) } else { None };
+    let w = WideRun { c, sec, kit: &kit, lv: &lv, enc: enc.as_ref(), key_id: *kit.ctx.key_parms_id(), seed };
+    match c.obj {
+        Obj::Ct => wide_ct(&w),
+        Obj::Pt => wide_pt(&w),
+    }
+}
+
+/// prime-size pattern of the many-prime chains (mixed sizes: the prime being dropped is sometimes larger, sometimes smaller
+/// than the ones that stay)
+fn long_bits(len: usize, variant: usize) -> Vec<usize> {
+    const PAT: [usize; 9] = [40, 45, 36, 50, 42, 38, 48, 44, 54];
+    match variant {
+        0 => (0..len).map(|i| PAT[i % PAT.len()]).collect(),
+        1 => vec![40; len],
+        _ => (0..len).map(|i| PAT[(len - 1 - i) % PAT.len()]).collect(),
+    }
+}
+
+/// scale exponents per source level: the largest fresh scale whose (size-1)-fold product still fits level min(s+d, last)
+fn wide_scales(levels: &[Vec<u64>], n: usize, size: usize, d: usize, plain: bool) -> Vec<u32> {
+    let l = levels.len();
+    (0..l)
+        .map(|s| {
+            let u = (s + d).min(l - 1);
+            let bits = bits_of(&levels[u]) as i64;
+            if plain {
+                (bits - 4).clamp(2, 1000) as u32
+            } else {
+                let k = size.max(2) as i64;
+                let logn = n.trailing_zeros() as i64;
+                ((bits - 3 - (k - 2) * logn) / (k - 1) - 1).clamp(2, 1000) as u32
+            }
+        })
+        .collect()
+}
+
+fn wide_cases(specs: &[ParamSpec], sizes: &[usize], msgs: &[usize], all_d: bool) -> Vec<WideCase> {
+    let mut out = vec![];
+    for spec in specs {
+        let levels = model_levels(spec);
+        let l = levels.len();
+        let ckks = spec.scheme == Scheme::CKKS;
+        // weight of a parameter set: words of one polynomial on the key level. From 8 Ki words on one case = one source level;
+        // from 32 Ki words on only sizes <= 3 and two message families (each case still compares all N coefficients).
+        let words = spec.n * spec.q.len();
+        let split = words >= 8192;
+        let heavy = words >= 32768;
+        let sizes: Vec<usize> = sizes.iter().copied().filter(|&k| !heavy || k <= 3).collect();
+        let msgs: Vec<usize> = msgs.iter().copied().filter(|&m| !heavy || m <= 1).collect();
+        let push = |mut c: WideCase, out: &mut Vec<WideCase>| {
+            if split {
+                for s in 0..l {
+                    c.src = Some(s);
+                    out.push(c.clone());
+                }
+            } else {
+                out.push(c);
+            }
+        };
+        // distance between the source level and the last level its scale still fits
+        let ds: Vec<usize> = if !ckks {
+            vec![0]
+        } else if all_d {
+            (0..l).collect()
+        } else {
+            let mut v = vec![l - 1, 0, 1, l / 2];
+            v.retain(|&d| d < l);
+            v.sort();
+            v.dedup();
+            v
+        };
+        for &msg in &msgs {
+            for &size in &sizes {
+                // plain switching
+                let mut seen: Vec<Vec<u32>> = vec![];
+                for &d in &ds {
+                    let sc = if ckks { wide_scales(&levels, spec.n, size, d, false) } else { vec![] };
+                    if seen.contains(&sc) {
+                        continue;
+                    }
+                    seen.push(sc.clone());
+                    push(WideCase { spec: spec.clone(), obj: Obj::Ct, rescale: false, size, scale_log2: sc, msg, src: None }, &mut out);
+                }
+                // rescaling: the largest scale of the source level (long runs keep the message) and the smallest one
+                if ckks {
+                    let mut seen: Vec<Vec<u32>> = vec![];
+                    for d in [0, l - 1] {
+                        let sc = wide_scales(&levels, spec.n, size, d, false);
+                        if seen.contains(&sc) {
+                            continue;
+                        }
+                        seen.push(sc.clone());
+                        push(WideCase { spec: spec.clone(), obj: Obj::Ct, rescale: true, size, scale_log2: sc, msg, src: None }, &mut out);
+                    }
+                } else if size == sizes[0] && msg == msgs[0] {
+                    push(WideCase { spec: spec.clone(), obj: Obj::Ct, rescale: true, size, scale_log2: vec![], msg, src: None }, &mut out);
+                }
+            }
+            let mut seen: Vec<Vec<u32>> = vec![];
+            for &d in &ds {
+                let sc = if ckks { wide_scales(&levels, spec.n, 2, d, true) } else { vec![] };
+                if seen.contains(&sc) {
+                    continue;
+                }
+                seen.push(sc.clone());
+                push(WideCase { spec: spec.clone(), obj: Obj::Pt, rescale: false, size: 0, scale_log2: sc, msg, src: None }, &mut out);
+            }
+        }
+    }
+    out
+}
+
+/// distinct NTT-friendly primes of the given bit sizes taken from the MIDDLE of each size range (55..97 % of 2^bits, a
+/// different fraction per position) instead of just below the power of two: quotients and products of such primes are not
+/// nearly exact in f64, so a scale that is not divided by each dropped prime in turn shows in its last bits
+fn chain_mid(n: usize, bits: &[usize]) -> Vec<u64> {
+    const PCT: [u64; 9] = [93, 71, 83, 62, 77, 57, 88, 66, 97];
+    let step = 2 * n as u64;
+    let mut out: Vec<u64> = vec![];
+    for (i, &b) in bits.iter().enumerate() {
+        let mut x = ((1u64 << b) / 100 * PCT[i % PCT.len()]) / step * step + 1;
+        while !crate::refmodel::bigu::is_prime_u64(x) || out.contains(&x) {
+            x -= step;
+        }
+        assert!(x >> (b - 1) == 1, "harness: no {b}-bit prime = 1 mod {step} below the starting point");
+        out.push(x);
+    }
+    out
+}
+
+/// shapes are (N, prime bit sizes at the key level, special_enc, primes from the middle of the size range)
+fn wide_specs(shapes: &[(usize, Vec<usize>, bool, bool)], ts: &[u64]) -> Vec<ParamSpec> {
+    let mut out = vec![];
+    for (n, bits, sp, mid) in shapes {
+        let q = if *mid { chain_mid(*n, bits) } else { he::chain(*n, bits) };
+        for scheme in Scheme::all() {
+            let tl: Vec<u64> = if scheme == Scheme::CKKS { vec![0] } else { ts.to_vec() };
+            for t in tl {
+                let mut s = ParamSpec::new(scheme, *n, q.clone(), t);
+                s.special_enc = *sp;
+                out.push(s);
+            }
+        }
+    }
+    out
+}
+
+/// many coefficient primes at tiny degree: key levels of 2..18 primes (one with 19), N alternating 4 / 8
+fn long_shapes(thorough: bool) -> Vec<(usize, Vec<usize>, bool, bool)> {
+    let mut v = vec![];
+    for len in 2..=18usize {
+        let ns: Vec<usize> = if thorough { vec![4, 8] } else { vec![if len % 2 == 0 { 4 } else { 8 }] };
+        for n in ns {
+            v.push((n, long_bits(len, 0), false, true));
+            if thorough {
+                v.push((n, long_bits(len, 0), false, false));
+                v.push((n, long_bits(len, 1), false, false));
+                v.push((n, long_bits(len, 2), false, true));
+            }
+        }
+    }
+    // first data level = key level: sources with 9, 17 and 18 primes
+    v.push((8, long_bits(9, 0), true, true));
+    v.push((4, long_bits(17, 0), true, false));
+    v.push((4, long_bits(18, 0), true, true));
+    v.push((8, long_bits(19, 0), false, true));
+    v
+}
+
+/// production degrees with short chains + the (N >= 1024, more than 8 primes) corner
+fn big_shapes(thorough: bool) -> Vec<(usize, Vec<usize>, bool, bool)> {
+    let mut v = vec![
+        (16, vec![40, 45, 50], false, false),
+        (32, vec![45, 36, 50, 40], false, false),
+        (64, vec![50, 40, 45], false, true),
+        (128, vec![40, 50, 45, 50], false, false),
+        (256, vec![50, 45, 40], false, false),
+        (512, vec![45, 50, 40, 50], false, true),
+        (1024, vec![50, 40, 50, 45], false, false),
+        (1024, long_bits(10, 0), false, false),
+        (4096, vec![50, 45, 50, 55], false, false),
+    ];
+    if thorough {
+        v.extend([
+            (128, vec![59, 59, 59], false, false),
+            (256, vec![40, 40, 40, 40], true, false),
+            (1024, long_bits(17, 0), false, false),
+            (2048, vec![45, 50, 40, 50], false, true),
+            (2048, long_bits(9, 0), true, false),
+            (4096, long_bits(10, 0), false, false),
+            (4096, long_bits(18, 0), false, false),
+            (8192, vec![55, 45, 50, 55], false, false),
+            (8192, long_bits(10, 0), false, false),
+        ]);
+    }
+    v
+}
+
 pub fn sections(cfg: &RunCfg) -> Vec<Box<dyn AnySection>> {
     let seed = cfg.seed;
     let thorough = cfg.thorough();
@@ -1320,6 +2197,57 @@ pub fn sections(cfg: &RunCfg) -> Vec<Box<dyn AnySection>> {
         )
         .deadline(ENGINE_DEADLINE)
         .hang_key(hang_key),
+    );
+
+    // production sizes
+    let long_sizes: Vec<usize> = vec![2, 3, 4, 5, 6];
+    let long_ts: Vec<u64> = if thorough { vec![17, 64, 257] } else { vec![17, 64] };
+    let long_msgs: Vec<usize> = if thorough { vec![0, 1, 2] } else { vec![0, 1] };
+    let mut long = wide_cases(&wide_specs(&long_shapes(thorough), &long_ts), &long_sizes, &long_msgs, thorough);
+    long.sort_by_key(|c| (c.spec.q.len(), c.spec.n, c.size));
+    v.push(
+        E1::new(
+            "long",
+            &format!(
+                "many coefficient primes: key levels of 2..19 primes (data levels of 1..18 primes; mixed 36..54-bit sizes, primes from the middle of each size range{}; three chains whose first data level is the key level: 9, 17, 18 primes), \
+                  N {}, BFV+BGV (t in {{17,64{}}}) and CKKS; ciphertext sizes 2..6 (real multiplications) and NTT-form plaintexts; inside each case EVERY source level x \
+                  (next, every level, key / zero / foreign id) x 3 API forms of mod_switch_to* / rescale_to* / mod_switch_plain_to*; CKKS scale per source level = largest one \
+                  fitting level s+d, d in {}; {} message families",
+                if thorough { ", the same sizes with the primes just below 2^bits, all-40-bit and reversed patterns" } else { "" },
+                if thorough { "in {4,8} for every length" } else { "alternating 4 / 8" },
+                if thorough { ",257" } else { "" },
+                if thorough { "0..last (all)" } else { "{0, 1, half, last}" },
+                long_msgs.len()
+            ),
+            long.into_iter(),
+            move |c: &WideCase| wide_check(c, seed, "long"),
+        )
+        .deadline(WIDE_DEADLINE)
+        .hang_key(|c| wide_hang_key("long", c))
+        .batch(4),
+    );
+    let big_sizes: Vec<usize> = if thorough { vec![2, 3, 4] } else { vec![2, 3] };
+    let big_ts: Vec<u64> = vec![17, 64];
+    let mut big = wide_cases(&wide_specs(&big_shapes(thorough), &big_ts), &big_sizes, &[0, 1, 2], false);
+    big.sort_by_key(|c| (c.spec.n * c.spec.q.len(), c.size));
+    v.push(
+        E1::new(
+            "big",
+            &format!(
+                "production degrees: N in {{16,32,64,128,256,512,1024,4096{}}} with chains of 3..4 primes (40..59 bits) and the many-prime corners N=1024 x 10{} primes, \
+                  BFV+BGV (t in {{17,64}}) and CKKS; ciphertext sizes 2..{} and NTT-form plaintexts; inside each case every source level x (next, every level, key / zero / foreign id) \
+                  x 3 API forms; CKKS scale classes d in {{0, 1, half, last}}; 3 structured message families (dense generic fill x sparse factors, boundary monomials, constant / alternating), \
+                  all N coefficients / N/2 slots of every result compared",
+                if thorough { ",2048,8192" } else { "" },
+                if thorough { " / 17, N=2048 x 9, N=4096 x 10 / 18, N=8192 x 10" } else { "" },
+                if thorough { 4 } else { 3 }
+            ),
+            big.into_iter(),
+            move |c: &WideCase| wide_check(c, seed, "big"),
+        )
+        .deadline(WIDE_DEADLINE)
+        .hang_key(|c| wide_hang_key("big", c))
+        .batch(1),
     );
     v
 }
